@@ -1160,7 +1160,11 @@ class TLSRecordLayer(object):
 
                             if alert.description == \
                                    AlertDescription.close_notify:
-                                self._shutdown(True)
+                                # the session stays resumable only when an
+                                # established connection is closed, not
+                                # when a handshake is abandoned
+                                self._shutdown(
+                                    self._recordLayer.handshake_finished)
                             elif alert.level == AlertLevel.warning:
                                 self._shutdown(False)
 
